@@ -75,6 +75,26 @@ ALL_FEATURES = [
                             # type arguments; variants like to put them first in different files
     "struct_cast",          # a second struct with the same member names (other order, other int
                             # widths) and a function that casts one into the other:  S2.(s)
+    # --- rung 4: the rest of the language's type constructors and control flow ---
+    "floats",               # f64/f32 comptime consts and functions computing through floats
+    "optionals",            # functions returning ?i64, switch over them, `.try` chains
+    "error_unions",         # an error enum, functions returning Er!i64, `.try`, nested switch
+    "pointers",             # functions taking ^S / ^mut S, auto-deref member access
+    "slices",               # functions taking []i64, arrays (local and global) coerced to slices
+    "defer_break",          # defer blocks, labelled blocks left by `break` with a value
+    "lambdas",              # local lambdas, nested named functions, lambdas passed as arguments
+    "type_blocks",          # a type computed by a comptime block from a const; values of that type
+    "bools",                # bool comptime consts steering an `if`
+    "struct_arrays",        # comptime globals that are arrays of structs
+    "fn_members",           # structs with a function-typed member, called through the member
+    "anon_literals",        # `.{ .. }` literals typed by their annotation
+    "global_type_inst",     # one global instantiation of a type-returning generic (VT :: comptime Vec(..))
+    "untyped_consts",       # globals without annotation holding a bare literal:  uc :: 7;  and small
+                            # typed ones (u8 / u16), used inside wider expressions
+    "const_arrays",         # constant (non-comptime) array globals whose items are other globals
+                            # of the same or a narrower number type:  ka :: i64.[c1, uc2, 3];
+    "indirect_refs",        # variants may name a definition of another file *through a third file*:
+                            # imp1.imp2.name
 ]
 
 
@@ -160,14 +180,24 @@ class Variant:
     the alias declarations of file i (they are placed at the positions given in `order` under
     the pseudo-names '@f<j>')"""
 
-    def __init__(self, order):
+    def __init__(self, order, via=None):
         self.order = order
+        # indirect references: (file index, target file index) -> file index of the file the
+        # reference goes through:  imp<mid>.imp<target>.name
+        self.via = dict(via or {})
 
     def nfiles(self):
         return len(self.order)
 
     def to_json(self):
-        return {"order": self.order}
+        d = {"order": self.order}
+        if self.via:
+            d["via"] = [[a, b, c] for (a, b), c in sorted(self.via.items())]
+        return d
+
+    @staticmethod
+    def from_json(d):
+        return Variant(d["order"], {(a, b): c for a, b, c in d.get("via", [])})
 
 
 FILE_NAMES = ["main.capy", "mod1.capy", "mod2.capy"]
@@ -241,7 +271,13 @@ def random_variant(prog, rnd, max_files=3):
                         f.remove(callee)
                 files[free[0]].append(callee)
         files = [f for i, f in enumerate(files) if f or i == 0]
-    return Variant(files)
+    via = {}
+    if "indirect_refs" in getattr(prog, "features", ()) and len(files) == 3:
+        for a in range(3):
+            for b in range(3):
+                if a != b and rnd.random() < 0.4:
+                    via[(a, b)] = 3 - a - b
+    return Variant(files, via)
 
 
 def render(prog, variant):
@@ -251,15 +287,23 @@ def render(prog, variant):
         for n in names:
             if not n.startswith("@"):
                 where[n] = fi
-    out = {}
+    via = getattr(variant, "via", None) or {}
+    nfiles = len(variant.order)
+    needed = [set() for _ in range(nfiles)]     # aliases each file has to declare
+    per_file = []
     for fi, names in enumerate(variant.order):
-        needed_aliases = set()
 
-        def ref(name, fi=fi, needed_aliases=needed_aliases):
+        def ref(name, fi=fi):
             target = where[name]
             if target == fi:
                 return name
-            needed_aliases.add(target)
+            mid = via.get((fi, target))
+            if mid is not None and mid not in (fi, target) and mid < nfiles:
+                # through a third file, which then has to import the target itself
+                needed[fi].add(mid)
+                needed[mid].add(target)
+                return "%s.%s.%s" % (ALIASES[mid], ALIASES[target], name)
+            needed[fi].add(target)
             return "%s.%s" % (ALIASES[target], name)
 
         tmp_counter = [0]
@@ -289,9 +333,12 @@ def render(prog, variant):
                 chunks.append(text)
             else:
                 chunks.append(it.render(ref))
+        per_file.append((chunks, placed_aliases))
+    out = {}
+    for fi, (chunks, placed_aliases) in enumerate(per_file):
         # alias declarations: at their recorded position if the variant has one, else on top
         decls_on_top = []
-        for target in sorted(needed_aliases):
+        for target in sorted(needed[fi]):
             decl = '%s :: #import("%s");' % (ALIASES[target], FILE_NAMES[target])
             if target in placed_aliases:
                 chunks[placed_aliases[target]] = decl
@@ -334,7 +381,7 @@ def place_imports(prog, variant, rnd):
         for t in targets:
             names.insert(rnd.randrange(lo, len(names) + 1), "@imp%d" % t)
         new_order.append(names)
-    return Variant(new_order)
+    return Variant(new_order, getattr(variant, "via", None))
 
 
 # ------------------------------------------------------------------------------------------
@@ -968,6 +1015,7 @@ class _Gen:
         i = self.rnd.randrange(n)
         it.uses = lambda ref, tmp: ["emit(%s[%d] + %s[0]);" % (ref(name), i, ref(name))]
         self.p.add(it)
+        self.global_arrays = getattr(self, "global_arrays", []) + [name]
 
     def mk_value_alias(self):
         if not self.int_consts:
@@ -1160,7 +1208,7 @@ class _Gen:
         tds, tdd = ("named", src), ("named", dst)
 
         def uses(ref, tmp):
-            v = tmp("c")
+            v = tmp("cz")
             return ["%s := %s(%s);" % (v, ref(fname), self.value_text(tds, ref, str(seed))),
                     "emit(%s);" % self.digest_text(tdd, ref, v)]
 
@@ -1259,6 +1307,501 @@ class _Gen:
         self.p.add(cit)
         self.int_fns.append(cname)
 
+    # --- rung 4 ------------------------------------------------------------------------
+    def _int_anchor(self, item):
+        """callable(ref) -> an i64 expression naming some earlier const if there is one"""
+        if self.int_consts and self.rnd.random() < 0.8:
+            c = self.rnd.choice(self.int_consts)
+            item.deps.add(c)
+            return lambda ref: ref(c)
+        v = self.lit(1, 9)
+        return lambda ref: v
+
+    def mk_float(self):
+        r = self.rnd
+        ft = r.choice(["f64", "f64", "f32"])
+        if r.random() < 0.5 or not getattr(self, "float_consts", None):
+            name = self.fresh("fl")
+            it = Item(name, "float_const")
+            a = self._int_anchor(it)
+            m = r.choice(["1.5", "0.25", "2.75", "3.125"])
+            # the i64 cast keeps an untyped literal from being inferred as a float operand of `%`
+            it.render = lambda ref: "%s :: comptime { %s.(i64.(%s) %% 50) * %s + 0.5 };" % (name, ft, a(ref), m)
+            it.uses = lambda ref, tmp: ["emit(i64.(%s * 16.0));" % ref(name)]
+            self.p.add(it)
+            self.float_consts = getattr(self, "float_consts", []) + [(name, ft)]
+            return
+        name = self.fresh("ff")
+        it = Item(name, "fn")
+        it.is_function = True
+        c, ft = r.choice(self.float_consts)
+        it.deps.add(c)
+        extra = self.iexpr(it, "a", depth=1)
+        m = r.choice(["1.25", "0.5", "2.0"])
+        it.render = lambda ref: (
+            "%s :: (a: i64) -> i64 {\n    x := %s.(a %% 7) * %s + %s;\n    (i64.(x * 8.0) + %s) %% 997\n}"
+            % (name, ft, m, ref(c), extra(ref)))
+        arg = r.randint(0, 9)
+        it.uses = lambda ref, tmp: ["emit(%s(%d));" % (ref(name), arg)]
+        self.p.add(it)
+        self.int_fns.append(name)
+
+    def mk_optional(self):
+        r = self.rnd
+        ops = getattr(self, "opt_fns", [])
+        if not ops or r.random() < 0.4:
+            name = self.fresh("op")
+            it = Item(name, "fn_opt")
+            it.is_function = True
+            body = self.iexpr(it, "a", depth=1)
+            m = r.choice([2, 3, 4])
+            it.render = lambda ref: (
+                "%s :: (a: i64) -> ?i64 {\n    if a %% %d == 0 { return nil; }\n    res := (%s) %% 997;\n    res\n}"
+                % (name, m, body(ref)))
+            a1, a2 = r.randint(0, 8), r.randint(0, 8)
+
+            def uses(ref, tmp, name=name, a1=a1, a2=a2):
+                return ["switch v in %s(%d) { i64 => emit(v), nil => emit(0 - 1), }" % (ref(name), a)
+                        for a in (a1, a2)]
+
+            it.uses = uses
+            self.p.add(it)
+            self.opt_fns = ops + [name]
+            return
+        src = r.choice(ops)
+        if r.random() < 0.5:
+            # `.try` chain: another optional-returning function
+            name = self.fresh("oc")
+            it = Item(name, "fn_opt")
+            it.is_function = True
+            it.deps.add(src)
+            extra = self.iexpr(it, "a", depth=1)
+            it.render = lambda ref: (
+                "%s :: (a: i64) -> ?i64 {\n    x := %s(a + 1).try;\n    (x + %s) %% 997\n}"
+                % (name, ref(src), extra(ref)))
+            a1 = r.randint(0, 8)
+            it.uses = lambda ref, tmp: [
+                "switch v in %s(%d) { i64 => emit(v), nil => emit(0 - 2), }" % (ref(name), a1)]
+            self.p.add(it)
+            self.opt_fns = ops + [name]
+        else:
+            # an ordinary i64 function on top, so that everything else can call it
+            name = self.fresh("ou")
+            it = Item(name, "fn")
+            it.is_function = True
+            it.deps.add(src)
+            how = r.choice(["switch", "unwrap"])
+            if how == "switch":
+                it.render = lambda ref: (
+                    "%s :: (a: i64) -> i64 {\n    switch v in %s(a %% 9) {\n        i64 => v %% 997,\n"
+                    "        nil => 0 - 1,\n    }\n}" % (name, ref(src)))
+            else:
+                it.render = lambda ref: (
+                    "%s :: (a: i64) -> i64 {\n    o := %s(a %% 9);\n    if #is_variant(o, i64) { #unwrap(o, i64) %% 997 }"
+                    " else { 0 - 1 }\n}" % (name, ref(src)))
+            arg = r.randint(0, 9)
+            it.uses = lambda ref, tmp: ["emit(%s(%d));" % (ref(name), arg)]
+            self.p.add(it)
+            self.int_fns.append(name)
+
+    def mk_error_union(self):
+        r = self.rnd
+        ers = getattr(self, "err_enums", {})
+        efs = getattr(self, "err_fns", [])
+        if not ers:
+            name = self.fresh("Er")
+            it = Item(name, "enum")
+            pay2 = r.choice(["i32", "u16", "i64"])
+            variants = [("Low", "u8"), ("Bad", pay2)]
+            it.render = lambda ref: "%s :: enum { Low: u8, Bad: %s };" % (name, pay2)
+            self.p.add(it)
+            self.err_enums = {name: variants}
+            return
+        en = r.choice(sorted(ers))
+        pay2 = ers[en][1][1]
+        if not efs or r.random() < 0.35:
+            name = self.fresh("eu")
+            it = Item(name, "fn_err")
+            it.is_function = True
+            it.deps.add(en)
+            body = self.iexpr(it, "a", depth=1)
+            m1, m2 = r.sample([2, 3, 5, 7], 2)
+            it.render = lambda ref: (
+                "%s :: (a: i64) -> %s!i64 {\n    if a %% %d == 0 { return %s.Low.(u8.(a %% 200)); }\n"
+                "    if a %% %d == 0 { return %s.Bad.(%s.(a %% 100 + 1)); }\n    res := (%s) %% 997;\n    res\n}"
+                % (name, ref(en), m1, ref(en), m2, ref(en), pay2, body(ref)))
+            self.p.add(it)
+            self.err_fns = efs + [(name, en)]
+            return
+        src, en = r.choice(efs)
+        pay2 = ers[en][1][1]
+        if r.random() < 0.4:
+            name = self.fresh("ec")
+            it = Item(name, "fn_err")
+            it.is_function = True
+            it.deps |= {src, en}
+            extra = self.iexpr(it, "a", depth=1)
+            it.render = lambda ref: (
+                "%s :: (a: i64) -> %s!i64 {\n    x := %s(a + 1).try;\n    (x * 3 + %s) %% 997\n}"
+                % (name, ref(en), ref(src), extra(ref)))
+            self.p.add(it)
+            self.err_fns = efs + [(name, en)]
+            return
+        name = self.fresh("ew")
+        it = Item(name, "fn")
+        it.is_function = True
+        it.deps |= {src, en}
+        it.render = lambda ref: (
+            "%s :: (a: i64) -> i64 {\n    switch v in %s(a %% 12) {\n        i64 => v %% 997,\n"
+            "        %s => {\n            switch e in v {\n                .Low => 0 - 10 - i64.(u8.(e)),\n"
+            "                .Bad => 0 - 500 - i64.(%s.(e)),\n            }\n        },\n    }\n}"
+            % (name, ref(src), ref(en), pay2))
+        args = r.sample(range(0, 12), 3)
+        it.uses = lambda ref, tmp: ["emit(%s(%d));" % (ref(name), a) for a in args]
+        self.p.add(it)
+        self.int_fns.append(name)
+
+    def _int_first_struct(self):
+        cands = [sn for sn, fields in sorted(self.structs.items()) if fields and fields[0][1][0] == "int"]
+        if cands:
+            return self.rnd.choice(cands)
+        return self._plain_int_struct()
+
+    def mk_pointer_fns(self):
+        r = self.rnd
+        sn = self._int_first_struct()
+        fields = self.structs[sn]
+        f0, t0 = fields[0][0], fields[0][1][1]
+        td = ("named", sn)
+        bm = self.fresh("bm")
+        bit = Item(bm, "fn_ptr")
+        bit.is_function = True
+        bit.deps.add(sn)
+        bit.render = lambda ref: "%s :: (p: ^mut %s, d: i64) {\n    p.%s = p.%s + %s.(d %% 5);\n}" % (
+            bm, ref(sn), f0, f0, t0)
+        self.p.add(bit)
+        rp = self.fresh("rp")
+        rit = Item(rp, "fn_ptr")
+        rit.is_function = True
+        rit.deps.add(sn)
+        rit.deps |= self.p.by_name[sn].deps
+        rit.render = lambda ref: "%s :: (p: ^%s) -> i64 {\n    %s %% 997\n}" % (
+            rp, ref(sn), self.digest_text(td, ref, "p"))
+        self.p.add(rit)
+        pw = self.fresh("pw")
+        wit = Item(pw, "fn")
+        wit.is_function = True
+        wit.deps |= {sn, bm, rp}
+        wit.deps |= self.p.by_name[sn].deps
+        wit.render = lambda ref: (
+            "%s :: (a: i64) -> i64 {\n    s := %s;\n    %s(^mut s, a);\n    q := ^s;\n    %s(q) + %s(^s)\n}"
+            % (pw, self.value_text(td, ref, "(a % 40)"), ref(bm), ref(rp), ref(rp)))
+        arg = r.randint(0, 30)
+        wit.uses = lambda ref, tmp: ["emit(%s(%d));" % (ref(pw), arg)]
+        self.p.add(wit)
+        self.int_fns.append(pw)
+
+    def mk_slice_fns(self):
+        r = self.rnd
+        sls = getattr(self, "slice_fns", [])
+        if not sls:
+            name = self.fresh("sl")
+            it = Item(name, "fn_slice")
+            it.is_function = True
+            w = r.choice(["acc + s[i]", "acc * 3 + s[i]", "acc + s[i] * (i64.(i) + 1)"])
+            it.render = lambda ref: (
+                "%s :: (s: []i64) -> i64 {\n    i := 0;\n    acc : i64 = 0;\n    while i < s.len {\n"
+                "        acc = (%s) %% 997;\n        i += 1;\n    }\n    acc\n}" % (name, w))
+            arrs = list(getattr(self, "global_arrays", []))
+
+            def uses(ref, tmp, name=name):
+                out = ["emit(%s(i64.[4, 5, 6]));" % ref(name)]
+                for a in getattr(self, "global_arrays", [])[:2]:
+                    out.append("emit(%s(%s));" % (ref(name), ref(a)))
+                return out
+
+            it.uses = uses
+            self.p.add(it)
+            self.slice_fns = [name]
+            return
+        src = r.choice(sls)
+        name = self.fresh("sw")
+        it = Item(name, "fn")
+        it.is_function = True
+        it.deps.add(src)
+        e1 = self.iexpr(it, "a", depth=1)
+        e2 = self.iexpr(it, "a", depth=1)
+        it.render = lambda ref: (
+            "%s :: (a: i64) -> i64 {\n    arr := i64.[a %% 9, %s, %s];\n    sv : []i64 = arr;\n    %s(sv) + %s(arr)\n}"
+            % (name, e1(ref), e2(ref), ref(src), ref(src)))
+        arg = r.randint(0, 9)
+        it.uses = lambda ref, tmp: ["emit(%s(%d));" % (ref(name), arg)]
+        self.p.add(it)
+        self.int_fns.append(name)
+
+    def mk_defer_break(self):
+        r = self.rnd
+        name = self.fresh("db")
+        it = Item(name, "fn")
+        it.is_function = True
+        c = self._int_anchor(it)
+        e = self.iexpr(it, "a", depth=1)
+        lim = r.randint(3, 30)
+        it.render = lambda ref: (
+            "%s :: (a: i64) -> i64 {\n    x := a %% 9;\n    p := ^mut x;\n    {\n"
+            "        defer { p^ = p^ * 2; };\n        p^ = p^ + %s %% 11;\n    }\n"
+            "    r := `blk: {\n        if x > %d { break `blk x * 3; }\n        x + %s\n    };\n    r %% 997\n}"
+            % (name, c(ref), lim, e(ref)))
+        arg = r.randint(0, 9)
+        it.uses = lambda ref, tmp: ["emit(%s(%d));" % (ref(name), arg)]
+        self.p.add(it)
+        self.int_fns.append(name)
+
+    def mk_lambda_fn(self):
+        r = self.rnd
+        name = self.fresh("lm")
+        it = Item(name, "fn")
+        it.is_function = True
+        c = self._int_anchor(it)
+        e = self.iexpr(it, "q", depth=1)
+        shape = r.choice(["local", "nested", "both"])
+
+        def render(ref):
+            body = []
+            terms = []
+            if shape in ("local", "both"):
+                body.append("fv := (q: i64) -> i64 { (q * 3 + %s) %% 997 };" % c(ref))
+                terms.append("fv(a % 11)")
+            if shape in ("nested", "both"):
+                body.append("inner :: (q: i64) -> i64 { (%s) %% 997 };" % e(ref))
+                terms.append("inner(a % 5)")
+            return "%s :: (a: i64) -> i64 {\n%s    (%s) %% 997\n}" % (
+                name, "".join("    %s\n" % b for b in body), " + ".join(terms))
+
+        it.render = render
+        arg = r.randint(0, 9)
+        it.uses = lambda ref, tmp: ["emit(%s(%d));" % (ref(name), arg)]
+        self.p.add(it)
+        self.int_fns.append(name)
+
+    def mk_type_block(self):
+        r = self.rnd
+        tbs = getattr(self, "type_blocks", [])
+        if not tbs or r.random() < 0.4:
+            name = self.fresh("Ty")
+            it = Item(name, "type_block")
+            c = self._int_anchor(it)
+            t1, t2 = r.sample(["i32", "i64", "u16", "u64"], 2)
+            it.render = lambda ref: "%s :: comptime { if (%s) %% 2 == 0 { %s } else { %s } };" % (
+                name, c(ref), t1, t2)
+            v = r.randint(1, 99)
+
+            def uses(ref, tmp, name=name, v=v):
+                x = tmp("ty")
+                return ["%s : %s = %d;" % (x, ref(name), v), "emit(i64.(%s));" % x]
+
+            it.uses = uses
+            self.p.add(it)
+            self.type_blocks = tbs + [name]
+            return
+        tb = r.choice(tbs)
+        name = self.fresh("tf")
+        it = Item(name, "fn")
+        it.is_function = True
+        it.deps.add(tb)
+        e = self.iexpr(it, "a", depth=1)
+        it.render = lambda ref: (
+            "%s :: (a: i64) -> i64 {\n    y : %s = %s.(a %% 100);\n    (i64.(y) + %s) %% 997\n}"
+            % (name, ref(tb), ref(tb), e(ref)))
+        arg = r.randint(0, 9)
+        it.uses = lambda ref, tmp: ["emit(%s(%d));" % (ref(name), arg)]
+        self.p.add(it)
+        self.int_fns.append(name)
+
+    def mk_bool(self):
+        r = self.rnd
+        bs = getattr(self, "bool_consts", [])
+        if not bs or r.random() < 0.4:
+            name = self.fresh("bc")
+            it = Item(name, "bool_const")
+            c = self._int_anchor(it)
+            k = r.randint(1, 30)
+            typed = r.random() < 0.5
+            if typed:
+                it.render = lambda ref: "%s : bool : comptime { %s > %d };" % (name, c(ref), k)
+            else:
+                it.render = lambda ref: "%s :: comptime { %s > %d };" % (name, c(ref), k)
+            it.uses = lambda ref, tmp: ["if %s { emit(1); } else { emit(0); }" % ref(name)]
+            self.p.add(it)
+            self.bool_consts = bs + [name]
+            return
+        b = r.choice(bs)
+        name = self.fresh("bf")
+        it = Item(name, "fn")
+        it.is_function = True
+        it.deps.add(b)
+        e1 = self.iexpr(it, "a", depth=1)
+        e2 = self.iexpr(it, "a", depth=1)
+        it.render = lambda ref: (
+            "%s :: (a: i64) -> i64 {\n    if %s && a %% 2 == 0 { (%s) %% 997 } else { (%s) %% 997 }\n}"
+            % (name, ref(b), e1(ref), e2(ref)))
+        arg = r.randint(0, 9)
+        it.uses = lambda ref, tmp: ["emit(%s(%d));" % (ref(name), arg)]
+        self.p.add(it)
+        self.int_fns.append(name)
+
+    def mk_struct_array(self):
+        if not self.struct_makers:
+            return self.mk_struct_fn() if self.structs else self.mk_struct()
+        r = self.rnd
+        fn = r.choice(sorted(self.struct_makers))
+        sn = self.struct_makers[fn]
+        name = self.fresh("sa")
+        it = Item(name, "comptime_struct_array")
+        it.deps |= {fn, sn}
+        n = r.randint(2, 3)
+        args = [self.lit(0, 9) for _ in range(n)]
+        it.render = lambda ref: "%s :: comptime { %s.[%s] };" % (
+            name, ref(sn), ", ".join("%s(%s)" % (ref(fn), a) for a in args))
+        td = ("named", sn)
+        i = r.randrange(n)
+
+        def uses(ref, tmp):
+            v = tmp("sav")
+            return ["%s := %s[%d];" % (v, ref(name), i), "emit(%s);" % self.digest_text(td, ref, v)]
+
+        it.uses = uses
+        self.p.add(it)
+
+    def mk_fn_member(self):
+        if not self.int_fns:
+            return self.mk_fn()
+        r = self.rnd
+        sn = self.fresh("FS")
+        sit = Item(sn, "struct")
+        sit.render = lambda ref: "%s :: struct { k: i64, fnm: (a: i64) -> i64 };" % sn
+        self.p.add(sit)
+        fn = r.choice(self.int_fns)
+        # (a struct with a function member *returned by value* from a function is miscompiled by
+        # the pinned tree - "no class" in the C ABI classifier, the program dies with SIGSEGV in
+        # every order; other properties' territory - so the value is built and used locally, or
+        # handed over by pointer)
+        tk = self.fresh("uf")
+        tit = Item(tk, "fn_ptr")
+        tit.is_function = True
+        tit.deps.add(sn)
+        tit.render = lambda ref: "%s :: (p: ^%s, a: i64) -> i64 {\n    (p.fnm(a %% 6) + p.k) %% 997\n}" % (tk, ref(sn))
+        self.p.add(tit)
+        cf = self.fresh("cf")
+        cit = Item(cf, "fn")
+        cit.is_function = True
+        cit.deps |= {sn, fn, tk}
+        cit.render = lambda ref: (
+            "%s :: (a: i64) -> i64 {\n    s := %s.{ k = a %% 5, fnm = %s };\n    (s.fnm(s.k) + %s(^s, a)) %% 997\n}"
+            % (cf, ref(sn), ref(fn), ref(tk)))
+        arg = r.randint(0, 9)
+        cit.uses = lambda ref, tmp: ["emit(%s(%d));" % (ref(cf), arg)]
+        self.p.add(cit)
+        self.int_fns.append(cf)
+
+    def mk_anon_literal(self):
+        r = self.rnd
+        cands = [sn for sn, fields in sorted(self.structs.items())
+                 if all(ft[0] == "int" for _, ft in fields)]
+        sn = r.choice(cands) if cands else self._plain_int_struct()
+        fields = self.structs[sn]
+        name = self.fresh("al")
+        it = Item(name, "fn")
+        it.is_function = True
+        it.deps.add(sn)
+        td = ("named", sn)
+
+        def render(ref):
+            parts = ["%s = %s" % (fn, self.value_text(ft, ref, "(a %% 30 + %d)" % i))
+                     for i, (fn, ft) in enumerate(fields)]
+            return "%s :: (a: i64) -> i64 {\n    s : %s = .{ %s };\n    %s %% 997\n}" % (
+                name, ref(sn), ", ".join(parts), self.digest_text(td, ref, "s"))
+
+        it.render = render
+        arg = r.randint(0, 9)
+        it.uses = lambda ref, tmp: ["emit(%s(%d));" % (ref(name), arg)]
+        self.p.add(it)
+        self.int_fns.append(name)
+
+    def mk_global_type_inst(self):
+        if getattr(self, "have_type_inst", False):
+            return self.mk_const()
+        r = self.rnd
+        self.have_type_inst = True
+        vec = self.fresh("Vec")
+        vit = Item(vec, "type_fn")
+        vit.is_function = True
+        vit.render = lambda ref: ("%s :: (comptime T: type, comptime n: usize) -> type {\n"
+                                  "    struct { data: [n]T, len: i64 }\n}") % vec
+        self.p.add(vit)
+        k = r.randint(2, 4)
+        t = r.choice(["i64", "i32", "u8"])
+        name = self.fresh("VT")
+        it = Item(name, "type_inst")
+        it.deps.add(vec)
+        it.render = lambda ref: "%s :: comptime %s(%s, %d);" % (name, ref(vec), t, k)
+        self.p.add(it)
+        mk = self.fresh("mv")
+        mit = Item(mk, "fn")
+        mit.is_function = True
+        mit.deps |= {name}
+        elems = ", ".join("%s.(a %% 20 + %d)" % (t, i) for i in range(k))
+        mit.render = lambda ref: (
+            "%s :: (a: i64) -> i64 {\n    v : %s = %s.{ data = %s.[%s], len = %d };\n"
+            "    (i64.(v.data[%d]) + v.len) %% 997\n}" % (mk, ref(name), ref(name), t, elems, k, k - 1))
+        arg = r.randint(0, 9)
+        mit.uses = lambda ref, tmp: ["emit(%s(%d));" % (ref(mk), arg)]
+        self.p.add(mit)
+        self.int_fns.append(mk)
+
+    def mk_untyped_const(self):
+        r = self.rnd
+        name = self.fresh("uc")
+        it = Item(name, "small_const")
+        kind = r.choice(["untyped", "untyped", "u8", "u16"])
+        v = r.randint(1, 99)
+        if kind == "untyped":
+            it.render = lambda ref: "%s :: %d;" % (name, v)
+        else:
+            it.render = lambda ref: "%s : %s : %d;" % (name, kind, v)
+        it.uses = lambda ref, tmp: ["emit(i64.(%s));" % ref(name)]
+        self.p.add(it)
+        self.small_consts = getattr(self, "small_consts", []) + [(name, kind)]
+
+    def mk_const_array(self):
+        r = self.rnd
+        smalls = getattr(self, "small_consts", [])
+        name = self.fresh("ka")
+        it = Item(name, "const_array")
+        elem = r.choice(["i64", "i64", "u16", "u64"])
+        n = r.randint(2, 4)
+        items = []
+        for _ in range(n):
+            k = r.random()
+            # an untyped global ends up as an i32, which only fits into the i64 arrays
+            fits = [nm for nm, kind in smalls if elem == "i64" or kind in ("u8", "u16")]
+            if elem == "i64" and self.int_consts and k < 0.4:
+                c = r.choice(self.int_consts)
+                it.deps.add(c)
+                items.append(lambda ref, c=c: ref(c))
+            elif fits and k < 0.8:
+                c = r.choice(fits)
+                it.deps.add(c)
+                items.append(lambda ref, c=c: ref(c))
+            else:
+                v = self.lit(1, 90)
+                items.append(lambda ref, v=v: v)
+        it.render = lambda ref: "%s :: %s.[%s];" % (name, elem, ", ".join(x(ref) for x in items))
+        it.uses = lambda ref, tmp: ["emit(i64.(%s[%d]));" % (ref(name), i) for i in range(n)]
+        self.p.add(it)
+        if elem == "i64":
+            self.global_arrays = getattr(self, "global_arrays", []) + [name]
+
     def build(self):
         self.add_prelude()
         r = self.rnd
@@ -1314,6 +1857,36 @@ class _Gen:
             menu.append(("generic_twins", self.mk_generic_twins, 1))
         if "generic_dependent" in f:
             menu.append(("generic_dependent", self.mk_generic_dependent, 1))
+        if "floats" in f:
+            menu.append(("float", self.mk_float, 2))
+        if "optionals" in f:
+            menu.append(("optional", self.mk_optional, 2))
+        if "error_unions" in f:
+            menu.append(("error_union", self.mk_error_union, 2))
+        if "pointers" in f:
+            menu.append(("pointer_fns", self.mk_pointer_fns, 1))
+        if "slices" in f:
+            menu.append(("slice_fns", self.mk_slice_fns, 1))
+        if "defer_break" in f:
+            menu.append(("defer_break", self.mk_defer_break, 1))
+        if "lambdas" in f:
+            menu.append(("lambda_fn", self.mk_lambda_fn, 1))
+        if "type_blocks" in f:
+            menu.append(("type_block", self.mk_type_block, 2))
+        if "bools" in f:
+            menu.append(("bool", self.mk_bool, 1))
+        if "struct_arrays" in f and "structs" in f:
+            menu.append(("struct_array", self.mk_struct_array, 1))
+        if "fn_members" in f:
+            menu.append(("fn_member", self.mk_fn_member, 1))
+        if "anon_literals" in f:
+            menu.append(("anon_literal", self.mk_anon_literal, 1))
+        if "global_type_inst" in f:
+            menu.append(("global_type_inst", self.mk_global_type_inst, 1))
+        if "untyped_consts" in f:
+            menu.append(("untyped_const", self.mk_untyped_const, 2))
+        if "const_arrays" in f:
+            menu.append(("const_array", self.mk_const_array, 2))
         weights = [w for _, _, w in menu]
         guard = 0
         while self.count_globals() < self.n and guard < 100:
@@ -1346,4 +1919,8 @@ def generate(rnd, features=None, n_globals=None):
                 features.add(f)
     if n_globals is None:
         n_globals = rnd.randint(3, 12)
+    import os
+    force = os.environ.get("VERIF_G_FORCE")     # calibration knob, never set by the checks
+    if force:
+        features = set(features) | set(force.split(","))
     return _Gen(rnd, features, n_globals).build()
